@@ -11,7 +11,7 @@ for d in $(ls -d seeded/C*-* | sort -V); do
   if [ -n "$(git -C /repo status --porcelain --untracked-files=no)" ]; then echo "repo dirty, abort"; exit 2; fi
   if git -C /repo apply --3way /verif/$d/patch.diff >/dev/null 2>&1 && [ -z "$(git -C /repo diff --name-only --diff-filter=U)" ]; then
     git -C /repo reset -q
-    log=$(timeout 900 ./bin/goblvc check $prop -q 2>&1); rc=$?
+    log=$(timeout 900 ./bin/goblvc check $prop -q -noevidence 2>&1); rc=$?
     n=$(echo "$log" | grep -c "^VIOLATION")
     first=$(echo "$log" | grep -A1 "^VIOLATION" | head -2 | tail -1 | cut -c1-160)
     kind=$(echo "$log" | grep "^VIOLATION" | head -1 | grep -q "no-failing-input-found" && echo "no-input" || echo "replayed")
